@@ -137,7 +137,7 @@ def check_config(cfg, w, rep):
                     continue
                 if blk.i not in prog.cfg(body).live():
                     continue
-                for o in prog.idx(body).resolve_place(t.args[0].place, IDENT) if t.args[0].place else []:
+                for o in prog.resolve_pl(body, t.args[0].place, IDENT) if t.args[0].place else []:
                     if o.kind != "agg" or o.info.j["agg"] != "closure":
                         continue
                     cb = prog.by_path.get(o.info.j["path"])
